@@ -16,7 +16,6 @@ def OpOk (s : State) : Op → Prop
   | .dexBatch c nested _ _ => (if nested then s.root else c) ≤ maxChainId
   | .setPool id _ => id < 65535
   | .seedNext c _ => c ≤ maxChainId
-  | .subsidy _ id _ _ => ∀ c, c ≤ maxChainId → id ≠ escrowId c
   | _ => True
 
 /-- a successful operation keeps the invariant -/
@@ -33,14 +32,19 @@ theorem apply_sinv {s s' : State} {op : Op} (hi : SInv s) (hok : OpOk s op) (h :
     change subsidy s a id n op = Except.ok s' at h
     unfold subsidy at h
     obtain ⟨_, _, h⟩ := bind_ok h
+    obtain ⟨u, hu, h⟩ := bind_ok h
+    have hid := (checkChainId_ok hu).2
     split at h
     · cases h
     · obtain ⟨s1, h1, h⟩ := bind_ok h
       injection h with h; subst h
       obtain ⟨ho1, hp1, _, _, _, _⟩ := accountSub_ok h1
       refine sinv_of_frame hi (by rw [poolAdd_orders, ho1]) (fun c hc => ?_) (by rw [poolAdd_accounts]; exact accountSub_nodup h1 hi.accountsNodup)
+      -- an accepted subsidy goes to a chain id (≤ MaxChainId): below every escrow pool id
+      have hne : escrowId c ≠ id := by
+        unfold escrowId Gen.Dex.EscrowPoolAddend U64; unfold maxChainId at hid hc; omega
       unfold escAmt
-      rw [poolAdd_other _ _ _ _ (Ne.symm (hok c hc)), getPool_congr hp1]
+      rw [poolAdd_other _ _ _ _ hne, getPool_congr hp1]
   | create m => exact createOrder_inv hi h hok.1 hok.2
   | edit m => exact editOrder_inv hi h hok
   | delete c id => exact deleteOrderMsg_inv hi h
